@@ -55,7 +55,7 @@ var c12Ops = []string{"sm2.keygen", "sm2.sign", "sm2.encrypt", "sm2.kxinit", "sm
 
 func genC12(r *sim.Rand, tier string) *sim.Program {
 	p := &sim.Program{Prop: "C12"}
-	op := r.Weighted(6, 8, 6, 4, 4, 6, 2, 2, 2, 2, 2, 2, 2, 2, 1, 2, 1)
+	op := r.Weighted(6, 8, 6, 4, 4, 6, 2, 2, 2, 2, 2, 2, 2, 2, 1, 2, 1, 3, 1)
 	p.SetC("op", op)
 	p.SetC("pre", r.Intn(2))
 	p.SetC("chunk", r.PickInt(0, 0, 1, 7, 16, 31, 32, 33))
